@@ -443,6 +443,18 @@ main(void)
 			printf("OK %.*s\n", (int)n, buf);
 			break;
 		}
+		case 'E': {
+			/* E text : dt_io_unescape() in place on the exact-size copy */
+			if (nf < 2U || f[1] == NULL) {
+				puts("ERR args");
+				break;
+			}
+			dt_io_unescape(f[1]);
+			printf("OK ");
+			puthex(f[1], strlen(f[1]));
+			putchar('\n');
+			break;
+		}
 		case 'Q':
 			goto out;
 		default:
